@@ -26,7 +26,9 @@ REPO = os.environ.get("VERIF_REPO", "/repo")
 GUARD = "bytecodealliance_wit_bindgen_verif"
 EVIDENCE_DIR = os.environ.get("VERIF_EVIDENCE_DIR", os.path.join(VERIF, "evidence"))
 REPLAY_DIR = os.path.join(VERIF, "replays")
-WORK_DIR = os.path.join(VERIF, "work")
+# runs against a scratch copy of the repository (VERIF_REPO, mutation testing)
+# get their own work tree so that they never disturb a run against /repo
+WORK_DIR = os.path.join(VERIF, "work") if REPO == "/repo" else os.path.join(VERIF, "work", "alt")
 # builds against a scratch copy of the repository (mutation testing) never
 # share a target dir with builds against /repo
 TARGET_DIR = os.path.join(VERIF, "target") if REPO == "/repo" else os.path.join(WORK_DIR, "target_alt")
